@@ -111,7 +111,10 @@ func (s *State) ExpandMacros(program ast.Node) ast.Node {
 			return s.MacroErrorf("wrong number of macro arguments, want=%d, got=%d", len(macro.Parameters), len(args))
 		}
 
-		evalEnv := s.extendMacroEnv(macro, args)
+		evalEnv, oerr := s.extendMacroEnv(macro, args)
+		if oerr != nil {
+			return s.MacroErrorf("%s", oerr.Value)
+		}
 
 		evaluated := evalEnv.Eval(macro.Body)
 
@@ -137,12 +140,16 @@ func quoteArgs(exp *ast.CallExpression) []object.Quote {
 
 // Returns a fully usable state (same limits, output, extensions as the caller's) whose
 // environment has the macro parameters bound to the quoted arguments.
-func (s *State) extendMacroEnv(macro *object.Macro, args []object.Quote) *State {
+func (s *State) extendMacroEnv(macro *object.Macro, args []object.Quote) (*State, *object.Error) {
 	extended := object.NewEnclosedEnvironment(macro.Env)
 
 	for paramIdx, param := range macro.Parameters {
 		// always a new binding (like function parameters), never a reference to a macro of the same name.
-		extended.SetNoChecks(param.Value().Literal(), args[paramIdx], true)
+		oerr := extended.CreateOrSet(param.Value().Literal(), args[paramIdx], true)
+		if oerr.Type() == object.ERROR {
+			oe, _ := oerr.(object.Error)
+			return nil, &oe
+		}
 	}
 	res := NewBlankState()
 	res.env = extended
@@ -155,5 +162,5 @@ func (s *State) extendMacroEnv(macro *object.Macro, args []object.Quote) *State 
 	res.MaxDepth = s.MaxDepth
 	res.Context = s.Context
 	res.NoReg = s.NoReg
-	return res
+	return res, nil
 }
